@@ -269,7 +269,19 @@ func selectDeflate(extensions []websocketExtension, mode CompressionMode) (*comp
 
 func acceptDeflate(ext websocketExtension, mode CompressionMode) (*compressionOptions, bool) {
 	copts := mode.opts()
+	seen := make(map[string]bool, len(ext.params))
 	for _, p := range ext.params {
+		// An offer with a repeated parameter must be declined.
+		// See https://www.rfc-editor.org/rfc/rfc7692#section-7.1
+		name := p
+		if i := strings.IndexByte(p, '='); i >= 0 {
+			name = p[:i]
+		}
+		if seen[name] {
+			return nil, false
+		}
+		seen[name] = true
+
 		switch p {
 		case "client_no_context_takeover":
 			copts.clientNoContextTakeover = true
@@ -284,7 +296,11 @@ func acceptDeflate(ext websocketExtension, mode CompressionMode) (*compressionOp
 
 		if strings.HasPrefix(p, "client_max_window_bits=") {
 			// We can't adjust the deflate window, but decoding with a larger window is acceptable.
-			continue
+			// The value must still be a window size: an integer from 8 to 15 without leading zeros.
+			switch strings.TrimPrefix(p, "client_max_window_bits=") {
+			case "8", "9", "10", "11", "12", "13", "14", "15":
+				continue
+			}
 		}
 		return nil, false
 	}
